@@ -119,4 +119,226 @@ theorem updateEnum_iff (p : EnumP) (v : String) :
       exact hd
     rw [if_neg hc]
 
+/-! ### lemmas about `step`, `setString`, `Config` used by the property theorems -/
+
+section
+variable {α : Type} [LT α] [LE α] [DecidableLT α] [DecidableLE α] [FOps α]
+set_option linter.unusedSectionVars false
+
+/-- every wrapper around a generated `update`: in the domain afterwards when the parameter was in the domain -/
+theorem ofUpd_range {β γ : Type} [LT β] [LE β] [DecidableLT β] [DecidableLE β] [IsFinite β]
+    (cast : γ → β) (p : Range β) (v : γ) (hp : p.InDomain) : (updateRange cast p v).1.InDomain := by
+  cases h : (updateRange cast p v).2
+  · rw [(updateRange_accept cast p v h).1]; exact (updateRange_accept cast p v h).2
+  · rw [updateRange_reject cast p v h]; exact hp
+
+theorem ofUpd_pair {β γ : Type} [LT β] [LE β] [DecidableLT β] [DecidableLE β] [IsFinite β]
+    (cast : γ → β) (p : PRange β) (v1 v2 : γ) (hp : p.InDomain) : (updatePair cast p v1 v2).1.InDomain := by
+  cases h : (updatePair cast p v1 v2).2
+  · rw [(updatePair_accept cast p v1 v2 h).1]; exact (updatePair_accept cast p v1 v2 h).2
+  · rw [updatePair_reject cast p v1 v2 h]; exact hp
+
+theorem ofUpd_enum (p : EnumP) (v : String) (hp : p.InDomain) : (updateEnum p v).1.InDomain := by
+  cases h : (updateEnum p v).2
+  · rw [(updateEnum_accept p v h).1]; exact (updateEnum_accept p v h).2
+  · rw [updateEnum_reject p v h]; exact hp
+
+theorem setString_dom (s : Storage α) (v : String) (h : s.InDomain) : (setString s v).1.InDomain := by
+  unfold setString
+  cases s with
+  | mono => exact h
+  | str _ => trivial
+  | enum p => exact ofUpd_enum p v h
+  | irange p =>
+    simp only
+    split
+    · exact h
+    · exact ofUpd_range _ p _ h
+  | frange p =>
+    simp only
+    split
+    · exact h
+    · exact ofUpd_range _ p _ h
+  | iprange p =>
+    simp only
+    split
+    · exact h
+    · split
+      · exact h
+      · exact ofUpd_pair _ p _ _ h
+  | fprange p =>
+    simp only
+    split
+    · exact h
+    · split
+      · exact h
+      · exact ofUpd_pair _ p _ _ h
+
+theorem ofUpd_noop {σ : Type} (wrap : σ → Storage α) (r : σ × Bool) (p : σ)
+    (hrej : r.2 = true → r.1 = p) (h : (ofUpd wrap r).2.isThrow = true) : (ofUpd wrap r).1 = wrap p := by
+  unfold ofUpd at *
+  cases hr : r.2
+  · simp [hr, Res.isThrow] at h
+  · simp only [hrej hr]
+
+theorem setString_noop (s : Storage α) (v : String) (h : (setString s v).2.isThrow = true) :
+    (setString s v).1 = s := by
+  unfold setString at *
+  cases s with
+  | mono => rfl
+  | str _ => simp [Res.isThrow] at h
+  | enum p => exact ofUpd_noop _ _ p (updateEnum_reject p v) h
+  | irange p =>
+    simp only at h ⊢
+    split
+    · rfl
+    · rename_i x hx
+      rw [hx] at h
+      exact ofUpd_noop _ _ p (updateRange_reject _ p x) h
+  | frange p =>
+    simp only at h ⊢
+    split
+    · rfl
+    · rename_i x hx
+      rw [hx] at h
+      exact ofUpd_noop _ _ p (updateRange_reject _ p x) h
+  | iprange p =>
+    simp only at h ⊢
+    split
+    · rfl
+    · rename_i x2 hx2
+      rw [hx2] at h
+      simp only at h ⊢
+      split
+      · rfl
+      · rename_i x1 hx1
+        rw [hx1] at h
+        exact ofUpd_noop _ _ p (updatePair_reject _ p x1 x2) h
+  | fprange p =>
+    simp only at h ⊢
+    split
+    · rfl
+    · rename_i x2 hx2
+      rw [hx2] at h
+      simp only at h ⊢
+      split
+      · rfl
+      · rename_i x1 hx1
+        rw [hx1] at h
+        exact ofUpd_noop _ _ p (updatePair_reject _ p x1 x2) h
+
+theorem ofUpd_ok {σ : Type} (wrap : σ → Storage α) (r : σ × Bool) (h : (ofUpd wrap r).2 = Res.ok) :
+    r.2 = false ∧ (ofUpd wrap r).1 = wrap r.1 := by
+  unfold ofUpd at *
+  cases hr : r.2
+  · exact ⟨rfl, rfl⟩
+  · simp [hr] at h
+
+theorem setString_reads_back (s : Storage α) (v : String) (hok : (setString s v).2 = Res.ok) :
+    ∃ r, requested s (.setString v) = some r ∧
+      step (setString s v).1 ((setString s v).1.readOp) = ((setString s v).1, r) := by
+  unfold setString at *
+  cases s with
+  | mono => simp at hok
+  | str _ => exact ⟨.string v, rfl, rfl⟩
+  | enum p =>
+    have h1 := ofUpd_ok _ _ hok
+    refine ⟨.enumv v, rfl, ?_⟩
+    simp only [h1.2, (updateEnum_accept p v h1.1).1, Storage.readOp, step]
+  | irange p =>
+    simp only at hok ⊢
+    cases hx : stoll v with
+    | error e => rw [hx] at hok; simp at hok
+    | ok x =>
+      rw [hx] at hok
+      have h1 := ofUpd_ok _ _ hok
+      refine ⟨.int x, by simp [requested, hx, Except.toOption'], ?_⟩
+      simp only [h1.2, (updateRange_accept _ p x h1.1).1, Storage.readOp, step]
+  | frange p =>
+    simp only at hok ⊢
+    cases hx : (FOps.stod v : Except Err α) with
+    | error e => rw [hx] at hok; simp at hok
+    | ok x =>
+      rw [hx] at hok
+      have h1 := ofUpd_ok _ _ hok
+      refine ⟨.float x, by simp [requested, hx, Except.toOption'], ?_⟩
+      simp only [h1.2, (updateRange_accept _ p x h1.1).1, Storage.readOp, step]
+  | iprange p =>
+    simp only at hok ⊢
+    cases hx2 : stoll (splitPair v).2 with
+    | error e => rw [hx2] at hok; simp at hok
+    | ok x2 =>
+      rw [hx2] at hok
+      simp only at hok ⊢
+      cases hx1 : stoll (splitPair v).1 with
+      | error e => rw [hx1] at hok; simp at hok
+      | ok x1 =>
+        rw [hx1] at hok
+        have h1 := ofUpd_ok _ _ hok
+        refine ⟨.pairInt x1 x2, by simp [requested, hx1, hx2, Except.toOption'], ?_⟩
+        simp only [h1.2, (updatePair_accept _ p x1 x2 h1.1).1, Storage.readOp, step]
+  | fprange p =>
+    simp only at hok ⊢
+    cases hx2 : (FOps.stod (splitPair v).2 : Except Err α) with
+    | error e => rw [hx2] at hok; simp at hok
+    | ok x2 =>
+      rw [hx2] at hok
+      simp only at hok ⊢
+      cases hx1 : (FOps.stod (splitPair v).1 : Except Err α) with
+      | error e => rw [hx1] at hok; simp at hok
+      | ok x1 =>
+        rw [hx1] at hok
+        have h1 := ofUpd_ok _ _ hok
+        refine ⟨.pairFloat x1 x2, by simp [requested, hx1, hx2, Except.toOption'], ?_⟩
+        simp only [h1.2, (updatePair_accept _ p x1 x2 h1.1).1, Storage.readOp, step]
+
+theorem find?_none_of_not_mem (c : Config α) (name : String) (h : name ∉ c.names) : c.find? name = none := by
+  unfold Config.find?
+  have : c.params.find? (fun p => p.1 == name) = none := by
+    rw [List.find?_eq_none]
+    intro p hp hpe
+    apply h
+    simp only [Config.names, List.mem_map]
+    exact ⟨p, hp, by simpa using hpe⟩
+  rw [this]
+
+theorem find?_some_of_mem (c : Config α) (name : String) (h : name ∈ c.names) :
+    ∃ s, c.find? name = some s := by
+  unfold Config.find?
+  simp only [Config.names, List.mem_map] at h
+  obtain ⟨p, hp, hpe⟩ := h
+  cases hf : c.params.find? (fun p => p.1 == name) with
+  | none =>
+    rw [List.find?_eq_none] at hf
+    exact absurd (by simpa using hpe) (hf p hp)
+  | some q => exact ⟨q.2, rfl⟩
+
+theorem setFirst_mem (name : String) (s : Storage α) (ps : List (String × Storage α))
+    (p : String × Storage α) (hp : p ∈ Config.setFirst name s ps) : p ∈ ps ∨ p.2 = s := by
+  induction ps with
+  | nil => simp [Config.setFirst] at hp
+  | cons q qs ih =>
+    simp only [Config.setFirst] at hp
+    split at hp
+    · rcases List.mem_cons.1 hp with h | h
+      · right; rw [h]
+      · left; exact List.mem_cons_of_mem _ h
+    · rcases List.mem_cons.1 hp with h | h
+      · left; rw [h]; exact List.mem_cons_self
+      · rcases ih h with h' | h'
+        · left; exact List.mem_cons_of_mem _ h'
+        · right; exact h'
+
+theorem find?_mem (c : Config α) (name : String) (s : Storage α) (h : c.find? name = some s) :
+    ∃ p ∈ c.params, p.2 = s := by
+  unfold Config.find? at h
+  cases hq : c.params.find? (fun p => p.1 == name) with
+  | none => rw [hq] at h; cases h
+  | some q =>
+    rw [hq] at h
+    cases h
+    exact ⟨q, List.mem_of_find?_eq_some hq, rfl⟩
+
+end
+
 end NanoVerif.Param
